@@ -163,7 +163,11 @@ impl PanicInfo {
                 break;
             }
         }
-        let f = self.file.strip_prefix("/repo/").unwrap_or(&self.file);
+        // "/rustc/<hash>/library/alloc/..." -> "library/alloc/..." (no toolchain hash in the identity)
+        let f = match self.file.find("/library/") {
+            Some(i) if self.file.starts_with("/rustc/") => &self.file[i + 1..],
+            _ => self.file.strip_prefix("/repo/").unwrap_or(&self.file),
+        };
         format!("file={} kind={}", f, kind)
     }
     pub fn detail(&self) -> String {
